@@ -94,10 +94,18 @@ impl SfTag {
         match tag {
             Some(cow) => {
                 let key = cow.to_string();
-                TAG_LOOKUP_MAP
-                    .get(key.as_str())
-                    .copied()
-                    .unwrap_or(SfTag::Other)
+                if let Some(tag) = TAG_LOOKUP_MAP.get(key.as_str()) {
+                    return *tag;
+                }
+                // A verbatim tag (`!<tag:yaml.org,2002:str>`, `!<!degrees>`) is printed with
+                // the verbatim handle `!` in front of the full tag: it is the same tag as the
+                // one spelled in shorthand (`!!str`, `!degrees`).
+                if let Some(full) = key.strip_prefix('!')
+                    && let Some(tag) = TAG_LOOKUP_MAP.get(full)
+                {
+                    return *tag;
+                }
+                SfTag::Other
             }
             None => SfTag::None,
         }
